@@ -4,12 +4,18 @@
 (*                                                                         *)
 (* 1. The bookkeeping of the lexer's input wrapper (rasn-compiler/src/     *)
 (*    input.rs): the parser consumes the document in slices; with every    *)
-(*    slice the wrapper advances `offset` by the bytes consumed and `line` *)
+(*    slice the wrapper advances `offset` by the BYTES consumed and `line` *)
 (*    by the line feeds among them.  Documents are strings over            *)
-(*    {"x" (any other byte), "n" (LF), "r" (CR)}.  TLC checks, for every   *)
-(*    document up to MaxDoc symbols and every way of slicing it, the       *)
-(*    inductive invariant   line = 1 + number of LF before offset          *)
-(*    (a CR is not a line break: CRLF counts once).                        *)
+(*    {"x" (any other one-byte character), "n" (LF), "r" (CR), "w" (a      *)
+(*    character of two bytes: inputs are UTF-8)}.  `pos` counts the        *)
+(*    characters consumed, `offset` what the wrapper reports.  TLC checks, *)
+(*    for every document up to MaxDoc symbols and every way of slicing it, *)
+(*    the inductive invariants                                             *)
+(*         offset = number of bytes of the characters before pos           *)
+(*         line   = 1 + number of LF before pos                            *)
+(*    (a CR is not a line break: CRLF counts once).  OffsetUnit = "chars"  *)
+(*    is the design that advances offset by characters (C17-m7); TLC       *)
+(*    refutes OffsetIsBytes for it as soon as a "w" has been consumed.     *)
 (*                                                                         *)
 (* 2. Corruption plans for the harness: which assignment, which token of   *)
 (*    it, which edit (delete / replace / insert), what is put there        *)
@@ -18,28 +24,38 @@
 (***************************************************************************)
 EXTENDS Integers, Sequences, FiniteSets
 
-CONSTANTS MaxDoc
+CONSTANTS MaxDoc, OffsetUnit
 
-Sym == {"x", "n", "r"}
+Sym == {"x", "n", "r", "w"}
+Width(c) == IF c = "w" THEN 2 ELSE 1
 
-VARIABLES doc, offset, line, phase
-vars == <<doc, offset, line, phase>>
+VARIABLES doc, pos, offset, line, phase
+vars == <<doc, pos, offset, line, phase>>
 
-Init == doc = <<>> /\ offset = 0 /\ line = 1 /\ phase = "write"
-Write(c) == phase = "write" /\ Len(doc) < MaxDoc /\ doc' = Append(doc, c) /\ UNCHANGED <<offset, line, phase>>
-StartParsing == phase = "write" /\ phase' = "parse" /\ UNCHANGED <<doc, offset, line>>
+Init == doc = <<>> /\ pos = 0 /\ offset = 0 /\ line = 1 /\ phase = "write"
+Write(c) == phase = "write" /\ Len(doc) < MaxDoc /\ doc' = Append(doc, c) /\ UNCHANGED <<pos, offset, line, phase>>
+StartParsing == phase = "write" /\ phase' = "parse" /\ UNCHANGED <<doc, pos, offset, line>>
 
 LFs(s) == Cardinality({i \in 1..Len(s) : s[i] = "n"})
-\* consume the next n symbols
-Slice(n) == /\ phase = "parse" /\ n \in 1..(Len(doc) - offset)
-            /\ offset' = offset + n
-            /\ line' = line + LFs(SubSeq(doc, offset + 1, offset + n))
+RECURSIVE Bytes(_)
+Bytes(s) == IF s = <<>> THEN 0 ELSE Width(Head(s)) + Bytes(Tail(s))
+\* consume the next n characters
+Slice(n) == /\ phase = "parse" /\ n \in 1..(Len(doc) - pos)
+            /\ pos' = pos + n
+            /\ offset' = offset + (IF OffsetUnit = "bytes" THEN Bytes(SubSeq(doc, pos + 1, pos + n)) ELSE n)
+            /\ line' = line + LFs(SubSeq(doc, pos + 1, pos + n))
             /\ UNCHANGED <<doc, phase>>
 Next == (\E c \in Sym : Write(c)) \/ StartParsing \/ (\E n \in 1..MaxDoc : Slice(n))
 Spec == Init /\ [][Next]_vars
 
-LineIsLFCount == line = 1 + LFs(SubSeq(doc, 1, offset))
-OffsetInside == offset >= 0 /\ offset <= Len(doc)
+LineIsLFCount == line = 1 + LFs(SubSeq(doc, 1, pos))
+OffsetIsBytes == offset = Bytes(SubSeq(doc, 1, pos))
+OffsetInside == offset >= 0 /\ offset <= Bytes(doc)
+\* what a caller sees: the line breaks among the first `offset` BYTES of the input are line - 1 (holds because offset is a
+\* character boundary; with offsets counted in characters the byte slice ends early and may miss line breaks)
+RECURSIVE LFsInBytes(_, _)
+LFsInBytes(s, b) == IF s = <<>> \/ b < Width(Head(s)) THEN 0 ELSE (IF Head(s) = "n" THEN 1 ELSE 0) + LFsInBytes(Tail(s), b - Width(Head(s)))
+LineMatchesByteOffset == line = 1 + LFsInBytes(doc, offset)
 
 (* ---- what the property demands of a reported position ------------------ *)
 \* len: bytes of the input; lfBefore: LF bytes before `offset` in the input actually given;
